@@ -12,7 +12,8 @@ def main():
     sys.path.insert(0, os.path.dirname(os.path.abspath(__file__)))
     import consts
     import interval
-    for name, txt in (("Consts.lean", consts.generate(repo)), ("Interval.lean", interval.generate(repo))):
+    import configrules
+    for name, txt in (("Consts.lean", consts.generate(repo)), ("Interval.lean", interval.generate(repo)), ("ConfigRules.lean", configrules.generate(repo))):
         path = os.path.join(outdir, name)
         old = open(path).read() if os.path.exists(path) else None
         if old != txt:
